@@ -112,12 +112,13 @@ PROPS["C03"] = {
 PROPS["C04"] = {
     "programs": {
         "quick": [P("test", "VerifReadSeekHistory", must_reach=("end", "seek-negative", "read-at-or-past-end"), w=2, k=2, maxlen=5, steps=2),
-                  P("test", "VerifReadSeekHistory", must_reach=("end", "read-at-or-past-end"), w=2, k=2, maxlen=5, steps=3, readers=2, maxbuf=2, readonly=1)],
+                  P("test", "VerifReadSeekHistory", must_reach=("end", "read-at-or-past-end"), w=2, k=2, maxlen=5, steps=3, readers=2, maxbuf=2, readonly=1),
+                  P("test", "VerifReadSeekHistory", must_reach=("end", "seek-negative", "read-at-or-past-end"), w=2, k=2, maxlen=5, steps=3, offrange=7, maxbuf=2)],
         "thorough": [P("test", "VerifReadSeekHistory", must_reach=("end", "seek-negative", "read-at-or-past-end"), w=2, k=2, maxlen=6, steps=3),
                      P("test", "VerifReadSeekHistory", must_reach=("end", "seek-negative", "read-at-or-past-end"), w=2, k=2, maxlen=5, steps=3, readers=2, maxbuf=2),
                      P("test", "VerifReadSeekHistory", must_reach=("end", "seek-negative", "read-at-or-past-end"), w=2, k=1, maxlen=5, steps=2, maxbuf=4)],
     },
-    "bounds": {"quick": "files of 0..5 bytes at width 2 / size-2 (single raw block, root+2, root+3 -> 2 interior levels); histories of 2 operations with symbolic int64 offsets |off|<=2^40, all three whence values, buffers 1..3; plus two readers of one node interleaved in every order over 3 reads",
+    "bounds": {"quick": "files of 0..5 bytes at width 2 / size-2 (single raw block, root+2, root+3 -> 2 interior levels); histories of 2 operations with symbolic int64 offsets |off|<=2^40, all three whence values, buffers 1..3; histories of 3 operations with |off|<=7; plus two readers of one node interleaved in every order over 3 reads",
                "thorough": "histories of 3 operations; two readers with seeks; 3 interior levels"},
     "assumptions": ["offsets beyond +-2^40 (int64 wrap-around) are outside the claim"],
     "outside": "histories longer than the bound; more than two readers",
@@ -183,8 +184,10 @@ PROPS["C08"] = {
                   P("data/builder", "VerifBuilderSlice", must_reach=("end", "too-deep")),
                   P("hamt", "VerifHashBitsNext", must_reach=("end", "too-deep")),
                   P("data/builder", "VerifFormatLinkName"),
+                  P("hamt", "VerifMatchKey"), P("hamt", "VerifIsValueLink"), P("hamt", "VerifTransformName"),
                   P("test", "VerifHamtReaderWellFormed", must_reach=("end", "member", "non-member", "iterate"))],
         "thorough": [P("test", "VerifShardedDir", lg=3, entries=3, maxdepth=2),
+                     P("hamt", "VerifMatchKey"), P("hamt", "VerifIsValueLink"), P("hamt", "VerifTransformName"),
                      P("test", "VerifShardedDir", lg=4, entries=2, maxdepth=2),
                      P("test", "VerifShardedDir", lg=3, entries=2, maxdepth=2, small=0),
                      P("test", "VerifShardedDir", lg=3, entries=2, maxdepth=2, sizebits=40, small=1, fixedbuckets=1),
